@@ -68,6 +68,20 @@ func hasDurableState(storage wal.WAL) bool {
 	return false
 }
 
+// hasDurableLog tells whether the log store holds log entries or a snapshot,
+// i.e. whether a restarted member can recover the cluster's membership (and
+// the members' addresses) from it. A member that died after its first hard
+// state but before its first entries were stored has durable state and no log.
+func hasDurableLog(storage wal.WAL) bool {
+	if lastIndex, err := storage.LastIndex(); err == nil && lastIndex > 0 {
+		return true
+	}
+	if snapshot, err := storage.Snapshot(); err == nil && !etcdRaft.IsEmptySnap(snapshot) {
+		return true
+	}
+	return false
+}
+
 func startRaftNode(transport *RaftTransport, nodeIds []uint64, storage wal.WAL, logger *log.Entry) (etcdRaft.Node, error) {
 	raftConfig := &etcdRaft.Config{
 		ID:              transport.NodeId(),
@@ -104,7 +118,7 @@ func NewRaftGroup(id uuid.UUID, nodeIds []uint64, storage wal.WAL, transport *Ra
 	})
 
 	ctx, ctxCancel := context.WithCancel(context.Background())
-	restarted := hasDurableState(storage)
+	restarted := hasDurableLog(storage)
 	raftNode, err := startRaftNode(transport, nodeIds, storage, logger)
 	if err != nil {
 		return nil, err
@@ -189,7 +203,8 @@ func (this *RaftGroup) RegisterSnapshotFn(fn SnapshotFn) error {
 }
 
 // StartedWithDurableState tells whether the group's log store already held
-// state when the group was created, i.e. this is a restart of a group member.
+// a log (entries or a snapshot) when the group was created, i.e. this is a
+// restart of a group member that recovers the membership from its own store.
 func (this *RaftGroup) StartedWithDurableState() bool {
 	return this.restarted
 }
